@@ -1361,6 +1361,11 @@ Hwrite(int32 access_id, int32 length, const void *data)
     if (HTPinquire(access_rec->ddid, NULL, NULL, &data_off, &data_len) == FAIL)
         HGOTO_ERROR(DFE_INTERNAL, FAIL);
 
+    /* the end of the write must be representable as a 32-bit length and offset */
+    if (length > 0 && (access_rec->posn > INT32_MAX - length ||
+                       (data_off > 0 && data_off > INT32_MAX - (access_rec->posn + length))))
+        HGOTO_ERROR(DFE_BADLEN, FAIL);
+
     /* check validity of length and write data.
      NOTE: it is an error to attempt write past the end of the elt */
     if (length <= 0 || (!access_rec->appendable && length + access_rec->posn > data_len))
